@@ -24,7 +24,12 @@ Record func := {
   f_inline : list (N * N)
 }.
 
-Definition E_EXIT : N := 50.      (* Error::ProcessExit *)
+Definition E_EXIT : N := 50.      (* Error::ProcessExit(0): step.rs step_out_frame / step_over_any after the
+                                     debugee exited during `continue` (the code went to the on_exit hook only),
+                                     or a command given to a process that is already gone *)
+(* Error::ProcessExit(code) with the real status: tracer.rs single_step when the stepped thread
+   went through PTRACE_EVENT_EXIT (before commit c0ceee6 this was a panic, tracee_ensure_mut) *)
+Definition E_EXIT_CODE (code : N) : N := 1000 + code.
 Definition E_NOFUNC : N := 51.    (* Error::NoFunctionRanges *)
 
 Inductive why := WDone | WSignal (s : N) | WBreakpoint | WExit.
@@ -39,6 +44,7 @@ Section Step.
   Variable funcs : list func.
   Variable units : list (N * N).       (* address ranges covered by units that have debug info *)
   Variable overflow_checks : bool.     (* debug profile: `p -= 1` on p = 0 panics *)
+  Variable exit_code : N.              (* the status the process ends with, if the trace ends *)
 
   Definition in_unit (a : N) : bool := existsb (fun u => in_rng (fst u) (snd u) a) units.
 
@@ -83,7 +89,7 @@ Section Step.
     | O => OutOfFuel
     | S f =>
         match tr j with
-        | None => Err E_EXIT
+        | None => Err (E_EXIT_CODE exit_code)
         | Some p =>
             if negb (sig p =? 0) then Ok (j, Some (sig p))
             else if pc p =? pc0 then single_step f pc0 (S j)
@@ -197,6 +203,21 @@ Section Step.
         end
     end.
 
+  (* step.rs after "fix: finish and next stopped in a deeper activation": the hit of one of the
+     step's own temporaries in a frame for which [skip] holds is not a stop, the run goes on *)
+  Fixpoint run_skip (fuel : nat) (stops : N -> bool) (skip : pt -> bool) (prev : N) (j : nat) : res outcome :=
+    match fuel with
+    | O => OutOfFuel
+    | S f =>
+        match tr j with
+        | None => Ok (j, WExit)
+        | Some p =>
+            if negb (sig p =? 0) then Ok (j, WSignal (sig p))
+            else if negb (pc p =? prev) && stops (pc p) && negb (skip p) then Ok (j, WBreakpoint)
+            else run_skip f stops skip (pc p) (S j)
+        end
+    end.
+
   (* tracer.rs:428-449: while any temporary breakpoint exists, the hit of a breakpoint that is
      not temporary is stepped over silently ("unusual" breakpoint) *)
   Definition active (temps users : list N) : N -> bool :=
@@ -214,7 +235,10 @@ Section Step.
         | None => Ok (i, WDone)
         | Some r =>
             let temps := if memN r users then [] else [r] in
-            o <- run fuel (active temps users) (pc p) (S i) ;;
+            (* a hit of the temporary in a frame that is not older than the starting one: go on *)
+            o <- run_skip fuel (active temps users)
+                          (fun q => match temps with [] => false | _ => (pc q =? r) && (cfa q <=? cfa p) end)
+                          (pc p) (S i) ;;
             match o with
             | (_, WExit) => Err E_EXIT
             | (j, WBreakpoint) => Ok (j, match temps with [] => WBreakpoint | _ => WDone end)
@@ -292,7 +316,10 @@ Section Step.
             | [] => Err E_NOFUNC
             | _ =>
                 let temps := next_temps fn ra users in
-                o <- run fuel (active temps users) (pc p0) (S j0) ;;
+                (* a hit of one of the temporaries in a deeper frame: go on *)
+                o <- run_skip fuel (active temps users)
+                              (fun q => memN (pc q) temps && (cfa q <? cfa p0))
+                              (pc p0) (S j0) ;;
                 match o with
                 | (j, WSignal s) => Ok (j, WSignal s)
                 | (_, WExit) => Err E_EXIT
@@ -420,9 +447,17 @@ Definition spec_stop_ok (c : step_case) (s : nat) : bool :=
   | KFinish =>
       (cfa p0 <? cfa (pt_at l s)) && forallb (fun k => cfa (pt_at l k) <=? cfa p0) between
   | KNext =>
+      (* a statement row of the body of the current function itself: same file as the function,
+         outside its prologue and outside the bodies of inlined subroutines (an inlined callee is
+         a callee: `next` steps over it), cf. next_candidate / keep_row *)
+      let body_stmt a :=
+        match find_func (sc_funcs c) (sc_units c) (pc p0) with
+        | Some f => in_func f a && existsb (fun r => (r_addr r =? a) && keep_row f [] r) (sc_rows c)
+        | None => is_stmt_addr (sc_rows c) a
+        end in
       (cfa p0 <=? cfa (pt_at l s)) && is_stmt_addr (sc_rows c) (pc (pt_at l s)) &&
       forallb (fun j => negb (arrives j && (cfa (pt_at l j) =? cfa p0) &&
-                                is_stmt_addr (sc_rows c) (pc (pt_at l j)) &&
+                                body_stmt (pc (pt_at l j)) &&
                                 negb (opt_pair_eqb (line_of (sc_rows c) (sc_units c) (pc (pt_at l j))) ln)))
               between
   | KStep =>
@@ -439,9 +474,9 @@ Definition model_outcome (c : step_case) : res outcome :=
   let t := trace_of_list (sc_trace c) in
   let fuel := S (length (sc_trace c)) in
   match sc_kind c with
-  | KStepi => stepi t fuel (sc_start c)
-  | KStep => step_in t (sc_rows c) (sc_funcs c) (sc_units c) false fuel (sc_start c)
-  | KNext => step_over t (sc_rows c) (sc_funcs c) (sc_units c) false fuel (sc_ret c) (sc_users c) (sc_start c)
+  | KStepi => stepi t 0 fuel (sc_start c)
+  | KStep => step_in t (sc_rows c) (sc_funcs c) (sc_units c) false 0 fuel (sc_start c)
+  | KNext => step_over t (sc_rows c) (sc_funcs c) (sc_units c) false 0 fuel (sc_ret c) (sc_users c) (sc_start c)
   | KFinish => step_out t fuel (sc_ret c) (sc_users c) (sc_start c)
   end.
 
